@@ -410,15 +410,13 @@ func (matrix *DenseInt64Matrix) PermuteRows(pi []int) error {
   if n != m {
     return fmt.Errorf("SymmetricPermutation(): matrix is not a square matrix")
   }
-  // permute matrix
-  for i := 0; i < n; i++ {
-    if pi[i] < 0 || pi[i] > n {
-      return fmt.Errorf("SymmetricPermutation(): invalid permutation")
-    }
-    if i != pi[i] && pi[i] > i {
-      matrix.SwapRows(i, pi[i])
-    }
+  if err := checkPermutation(pi, n); err != nil {
+    return fmt.Errorf("SymmetricPermutation(): invalid permutation")
   }
+  // permute matrix, row/column i becomes row/column pi[i]
+  applyPermutation(pi, func(i, j int) {
+    matrix.SwapRows(i, j)
+  })
   return nil
 }
 func (matrix *DenseInt64Matrix) PermuteColumns(pi []int) error {
@@ -426,15 +424,13 @@ func (matrix *DenseInt64Matrix) PermuteColumns(pi []int) error {
   if n != m {
     return fmt.Errorf("SymmetricPermutation(): matrix is not a square matrix")
   }
-  // permute matrix
-  for i := 0; i < m; i++ {
-    if pi[i] < 0 || pi[i] > n {
-      return fmt.Errorf("SymmetricPermutation(): invalid permutation")
-    }
-    if i != pi[i] && pi[i] > i {
-      matrix.SwapColumns(i, pi[i])
-    }
+  if err := checkPermutation(pi, n); err != nil {
+    return fmt.Errorf("SymmetricPermutation(): invalid permutation")
   }
+  // permute matrix, row/column i becomes row/column pi[i]
+  applyPermutation(pi, func(i, j int) {
+    matrix.SwapColumns(i, j)
+  })
   return nil
 }
 func (matrix *DenseInt64Matrix) SymmetricPermutation(pi []int) error {
@@ -442,17 +438,14 @@ func (matrix *DenseInt64Matrix) SymmetricPermutation(pi []int) error {
   if n != m {
     return fmt.Errorf("SymmetricPermutation(): matrix is not a square matrix")
   }
-  for i := 0; i < n; i++ {
-    if pi[i] < 0 || pi[i] > n {
-      return fmt.Errorf("SymmetricPermutation(): invalid permutation")
-    }
-    if pi[i] > i {
-      // permute rows
-      matrix.SwapRows(i, pi[i])
-      // permute colums
-      matrix.SwapColumns(i, pi[i])
-    }
+  if err := checkPermutation(pi, n); err != nil {
+    return fmt.Errorf("SymmetricPermutation(): invalid permutation")
   }
+  // permute matrix, row/column i becomes row/column pi[i]
+  applyPermutation(pi, func(i, j int) {
+    matrix.SwapRows(i, j)
+    matrix.SwapColumns(i, j)
+  })
   return nil
 }
 /* type conversion
